@@ -65,6 +65,23 @@ Remaining      == [n |-> -1, d |-> 1]
 \* a send: amt >= 0, or -1 for [ASSET *]
 Send(amt, src, dst) == [amt |-> amt, src |-> src, dst |-> dst]
 
+\* ------------------------------------------------------------------ the same program at another scale
+\* every amount of a program (send amounts, caps, overdraft bounds) and every balance multiplied by k
+RECURSIVE ScaleSrc(_, _)
+ScaleSrc(s, k) == [s EXCEPT !.od = IF @ >= 0 THEN @ * k ELSE @, !.cap = @ * k,
+                            !.ss = [i \in 1..Len(s.ss) |-> ScaleSrc(s.ss[i], k)]]
+RECURSIVE ScaleDst(_, _)
+ScaleDst(d, k) == [d EXCEPT !.caps = [i \in 1..Len(d.caps) |-> d.caps[i] * k],
+                            !.ds = [i \in 1..Len(d.ds) |-> ScaleDst(d.ds[i], k)]]
+ScaleSends(ss, k) == [i \in 1..Len(ss) |-> [amt |-> IF ss[i].amt >= 0 THEN ss[i].amt * k ELSE ss[i].amt,
+                                            src |-> ScaleSrc(ss[i].src, k), dst |-> ScaleDst(ss[i].dst, k)]]
+ScaleBal(bal, k) == [a \in DOMAIN bal |-> bal[a] * k]
+RECURSIVE SrcHasPorts(_)
+SrcHasPorts(s) == s.t = "allot" \/ \E i \in 1..Len(s.ss) : SrcHasPorts(s.ss[i])
+RECURSIVE DstHasPorts(_)
+DstHasPorts(d) == d.t = "allot" \/ \E i \in 1..Len(d.ds) : DstHasPorts(d.ds[i])
+HasPorts(ss) == \E i \in 1..Len(ss) : SrcHasPorts(ss[i].src) \/ DstHasPorts(ss[i].dst)
+
 \* ------------------------------------------------------------------ static rules (the program is refused)
 RECURSIVE Fallback(_)
 Fallback(s) ==
@@ -260,9 +277,11 @@ Grant(sends, a) ==
 
 RECURSIVE NeverOverdrawn(_, _, _)
 \* C01: replaying the postings in order never takes a non-world account below -(granted overdraft)
-NeverOverdrawn(posts, bal, sends) ==
+NeverOverdrawn(posts, bal0, sends) ==
     IF posts = <<>> THEN TRUE
     ELSE LET p == Head(posts)
+             \* an account the balance table does not mention owns nothing
+             bal == [a \in DOMAIN bal0 \cup {p.src, p.dst} |-> IF a \in DOMAIN bal0 THEN bal0[a] ELSE 0]
              b1 == IF p.src = "world" THEN bal ELSE [bal EXCEPT ![p.src] = @ - p.amt]
              b2 == IF p.dst = "world" THEN b1 ELSE [b1 EXCEPT ![p.dst] = @ + p.amt]
              g == Grant(sends, p.src)
